@@ -655,6 +655,11 @@ fn cmd_mutants(args: Vec<String>) {
                 Ok((0, f)) => f,
                 _ => {
                     rejected_parse += 1;
+                    if rejected_parse <= 10 {
+                        // kept for inspection: same code tokens as the origin, but the parser reports errors
+                        let _ = std::fs::create_dir_all(format!("{}/rejected", outdir));
+                        let _ = std::fs::write(format!("{}/rejected/r{:02}-{}.dora", outdir, rejected_parse, kind), &m);
+                    }
                     continue;
                 }
             };
